@@ -8,6 +8,7 @@ compiler would read exactly the same bytes again, so the cached binary is the
 binary of the current working tree.  Anything else is recompiled.
 """
 import hashlib
+import threading
 import json
 import os
 import subprocess
@@ -70,6 +71,13 @@ def file_hash(path):
             h = _sha(f.read())
         _file_hash_cache[k] = h
     return h
+
+
+def _mtime(path):
+    try:
+        return os.stat(path).st_mtime
+    except OSError:
+        return 0.0
 
 
 def _tracked(path):
@@ -137,9 +145,10 @@ def _build_one(t):
         srctext = t.text.encode()
         srcpath = os.path.join(BUILD, "gen", t.name + "_" + _sha(srctext)[:12] + ".cpp")
         if not os.path.exists(srcpath):
-            with open(srcpath + ".tmp%d" % os.getpid(), "wb") as f:
+            tmp = srcpath + ".tmp%d_%d" % (os.getpid(), threading.get_ident())
+            with open(tmp, "wb") as f:
                 f.write(srctext)
-            os.replace(srcpath + ".tmp%d" % os.getpid(), srcpath)
+            os.replace(tmp, srcpath)
     else:
         srcpath = t.src
         with open(srcpath, "rb") as f:
@@ -162,7 +171,7 @@ def _build_one(t):
                 pass
             return t
     # compile
-    tmpbin = os.path.join(BUILD, "bin", "tmp_%s_%d" % (t.ident(), os.getpid()))
+    tmpbin = os.path.join(BUILD, "bin", "tmp_%s_%d_%d" % (t.ident(), os.getpid(), threading.get_ident()))
     tmpdep = tmpbin + ".d"
     cmd = t.cmd_flags() + ["-MD", "-MF", tmpdep, srcpath, "-o", tmpbin]
     t0 = time.time()
@@ -178,11 +187,20 @@ def _build_one(t):
     deps = [d for d in _parse_depfile(tmpdep) if os.path.realpath(d) != os.path.realpath(srcpath)]
     os.remove(tmpdep)
     key = _key(t, deps, srctext)
+    # a header edited while the compiler was running would give a binary of the old contents stored under the new key:
+    # files modified after the compilation started make the result untrustworthy -> compile again (bounded)
+    changed = [d for d in deps if _mtime(d) >= t0 - 1.0]
+    if changed and getattr(t, "_retries", 0) < 2:
+        t._retries = getattr(t, "_retries", 0) + 1
+        os.remove(tmpbin)
+        time.sleep(1.5)
+        return _build_one(t)
     binpath = os.path.join(BUILD, "bin", key)
     os.replace(tmpbin, binpath)
-    with open(depsfile + ".tmp%d" % os.getpid(), "w") as f:
+    tmpd = depsfile + ".tmp%d_%d" % (os.getpid(), threading.get_ident())
+    with open(tmpd, "w") as f:
         json.dump(deps, f)
-    os.replace(depsfile + ".tmp%d" % os.getpid(), depsfile)
+    os.replace(tmpd, depsfile)
     t.binary = binpath
     return t
 
